@@ -385,6 +385,20 @@ func (m *Machine) applyContract(st *State, fr *Frame, instr ssa.Instruction, fc 
 				bind[nm] = args[i]
 			} else if v, ok := m.shapeExtra(st, fr, nm); ok {
 				bind[nm] = v
+			} else {
+				// context object not in scope here (e.g. a retry handle run outside a RetryClient):
+				// some arbitrary existing object of that type
+				tn := strings.TrimSpace(f[strings.IndexAny(f, " \t"):])
+				if strings.HasPrefix(tn, "*") {
+					if obj := m.ts.pkg.Scope().Lookup(strings.TrimPrefix(tn, "*")); obj != nil {
+						pt := types.NewPointer(obj.Type())
+						v := m.ts.FreshValue("ctxobj."+nm, pt)
+						m.markOld(v)
+						m.assumeWellFormed(st, pt, v)
+						st.assume(m.ctx.Neq(v.(*Ptr).Ref, m.ctx.Int(0)))
+						bind[nm] = v
+					}
+				}
 			}
 			i++
 		}
